@@ -27,6 +27,18 @@ package proxy
 // instant not later than the shutdown instant (Serve returns on its own while the connections it
 // has accepted still carry work); Shutdown follows, as main.go does through exit.Fatal.
 //
+// Listener wrappings: every listener may sit behind a PROXY-protocol listener, http and tcp listeners also
+// behind a TLS-terminating one (nesting of proxy.ListenTCP); clients send the PROXY header and complete a TLS
+// handshake first, raw connections stall in any of the layers (pxy | tls | proto). Never-ending work also
+// comes as a client that does not read while its receive window is full to the brim and nobody is blocked in
+// a write (tls.Conn.Close then cannot deliver its close_notify), and as a tunnel whose upstream is
+// unreachable (the handler sits in its dial).
+//
+// Servers started around the shutdown: one more listener may be started by a driver event while fabio runs
+// (the real proxy.serve; the goroutine can be held between the registration and the server's Serve).
+// Registry history: proxy.CloseProxy for registered, unknown and already closed addresses before the
+// Shutdown call (statement-level runs).
+//
 // The clock moves only when nothing at all is enabled, and every scripted instant is hinted to the
 // driver, so the simulated network adds no latency: an item finishes exactly at the instant its
 // script says, and "by t0 + wait" is checked without slack.
@@ -106,16 +118,21 @@ type c18Lis struct {
 	// proxy.ListenTCP builds it) and gives a client PxyTimeout for its header.
 	Pxy        bool          `json:"proxy_protocol,omitempty"`
 	PxyTimeout time.Duration `json:"proxy_header_timeout,omitempty"`
+	// UpDown: tcp listeners: fault: the upstream of the listener's route is unreachable (connection attempts get no
+	// answer until fabio's dial timeout), so every tunnel of the listener stays in its handler's dial.
+	UpDown bool `json:"upstream_unreachable,omitempty"`
 	// StartAt: the listener is not started during set-up: the real serve path is called for it at this
 	// instant (offset from the start of the run), around the shutdown instant.
 	StartAt *time.Duration `json:"started_at,omitempty"`
 
-	host   string
-	port   int
-	srv    *c18Server
-	tlscfg *tls.Config
-	fl     *c18FaultyListener
-	failed bool // guarded by env.mu: the accept error has been injected
+	host       string
+	port       int
+	srv        *c18Server
+	tlscfg     *tls.Config
+	fl         *c18FaultyListener
+	failed     bool   // guarded by env.mu: the accept error has been injected
+	regAddr    string // the address under which fabio has filed the server (net.Listener.Addr().String())
+	closedByOp bool   // guarded by env.mu: proxy.CloseProxy was called for the listener's address
 	// late start, guarded by env.mu
 	started   bool // the start event has fired
 	skipped   bool // ... after Shutdown had returned (the process is gone): nothing was started
@@ -185,6 +202,9 @@ type c18Item struct {
 	// ClientConn is closed or reset underneath it).
 	Leave   string        `json:"client_leaves,omitempty"`
 	LeaveAt time.Duration `json:"client_leaves_at,omitempty"`
+	// UpDown: sni tunnels: fault: the upstream of the tunnel's route is unreachable (see c18Lis.UpDown; tcp
+	// tunnels have the flag of their listener).
+	UpDown bool `json:"upstream_unreachable,omitempty"`
 	// Brim: with Forever, http and tunnels: the client never reads and the backend sends piece after piece
 	// just as long as the pieces still fit into what the network buffers for the client (its receive window):
 	// the open work is a connection whose window is full to the brim while nobody is blocked in a write.
@@ -229,7 +249,20 @@ type c18Item struct {
 	upConn      *simnet.Conn
 }
 
+// c18RegOp is a step of the history of the server registry before the shutdown: proxy.CloseProxy(address), as
+// the tcp-dynamic loop of main.go calls it when a routed port has disappeared from the routing table.
+type c18RegOp struct {
+	At time.Duration `json:"at"`
+	// Target: the listener whose registered address is closed; -1: Addr, an address no server is registered for
+	Target int    `json:"listener"`
+	Addr   string `json:"address,omitempty"`
+
+	fired    bool // guarded by env.mu
+	returned bool
+}
+
 type c18Scenario struct {
+	RegOps    []*c18RegOp   `json:"registry_history,omitempty"`
 	Wait      time.Duration `json:"shutdown_wait"`
 	At        time.Duration `json:"shutdown_at"`
 	Tasks     bool          `json:"statement_level"`
@@ -243,6 +276,9 @@ var c18Waits = []time.Duration{time.Second, 50 * time.Millisecond, 5 * time.Seco
 var c18Ats = []time.Duration{200 * time.Millisecond, 0, time.Second, 7 * time.Second}
 var c18Kinds = []string{"http", "tcp", "sni", "grpc", "grpc-proxy"}
 var c18GrpcCalls = []string{"grpc-unary", "grpc-stream", "grpc-sstream"}
+
+// c18DialTimeout is the dial timeout the tcp and tcp+sni handlers are configured with.
+const c18DialTimeout = 20 * time.Second
 
 // c18GrpcBackend is the one gRPC backend behind every grpc-proxy listener (an IP literal: no name of the
 // second simulated network is spent on it).
@@ -349,6 +385,19 @@ func c18Gen(g *simcore.Tape, thorough bool) *c18Scenario {
 		if (l.Kind == "http" || l.Kind == "tcp") && g.Chance(35) {
 			l.TLS = true
 		}
+		if l.Kind == "tcp" && g.Chance(12) {
+			l.UpDown = true
+			for _, o := range sc.Listeners {
+				if o.Up == l.Up {
+					o.UpDown = true // one upstream per port
+				}
+			}
+		}
+		for _, o := range sc.Listeners {
+			if l.Kind == "tcp" && o.Up == l.Up && o.UpDown {
+				l.UpDown = true
+			}
+		}
 		if g.Chance(25) {
 			l.Pxy = true
 			l.PxyTimeout = simcore.Pick(g, []time.Duration{250 * time.Millisecond, 2 * time.Second}) // fabio's default first
@@ -397,6 +446,10 @@ func c18Gen(g *simcore.Tape, thorough bool) *c18Scenario {
 		if it.Kind == "sni" {
 			it.Name = it.ID + ".example.com"
 			it.Up = "up-" + it.ID + ".sim:9000"
+			it.UpDown = g.Chance(12)
+		}
+		if it.Kind == "tcp" {
+			it.UpDown = l.UpDown
 		}
 		switch c := g.Intn(10); {
 		case c <= 5:
@@ -585,6 +638,36 @@ func c18Gen(g *simcore.Tape, thorough bool) *c18Scenario {
 			l := sc.Listeners[g.Intn(nl-nlate)] // never the listener that is started late
 			at := A * time.Duration(simcore.Pick(g, []int{4, 2, 3, 1})) / 4
 			l.AcceptErrAt = &at
+		}
+	}
+	// history of the server registry before the shutdown: CloseProxy for the address of a running listener,
+	// for an address nothing is registered for, and a second time for the same address. Statement-level runs
+	// only: there every user of the registry (CloseProxy, Shutdown, a late serve) is a task and its locks are
+	// simulated ones, so that a lock which is never released blocks the later callers durably; a goroutine
+	// of an event-level run would block on the real mutex, which freezes the simulated clock.
+	if sc.Tasks && g.Chance(45) {
+		n := 1
+		if g.Chance(40) {
+			n = 2
+		}
+		// CloseProxy is fabio's way to end a dynamic TCP listener: only listeners served by a tcp.Server are closed
+		var tcps []int
+		for i, l := range sc.Listeners[:nl-nlate] {
+			if l.Kind == "tcp" || l.Kind == "sni" {
+				tcps = append(tcps, i)
+			}
+		}
+		for k := 0; k < n; k++ {
+			op := &c18RegOp{At: A * time.Duration(simcore.Pick(g, []int{2, 1, 3, 4})) / 4, Target: -1}
+			switch {
+			case k > 0 && g.Bool():
+				op.Target, op.Addr = sc.RegOps[0].Target, sc.RegOps[0].Addr // the same address again
+			case len(tcps) == 0 || g.Bool():
+				op.Addr = simcore.Pick(g, []string{":6999", "10.1.0.77:6999"})
+			default:
+				op.Target = simcore.Pick(g, tcps)
+			}
+			sc.RegOps = append(sc.RegOps, op)
 		}
 	}
 	return sc
@@ -821,25 +904,25 @@ type c18Peer struct {
 	key  string
 
 	// guarded by env.mu
-	conn       *simnet.Conn
-	next       int
-	idle       bool
-	dead       bool
-	dialErr    error
-	recv       []byte
-	readDone   bool
-	readErr    error
-	werr       error
-	want       int // tunnels: bytes expected in total
-	complete   bool
-	completeAt time.Time
-	phase      string // of the connection attempt: before | gray | after
-	gone          bool // the attempt was made after proxy.Shutdown had returned
+	conn          *simnet.Conn
+	next          int
+	idle          bool
+	dead          bool
+	dialErr       error
+	recv          []byte
+	readDone      bool
+	readErr       error
+	werr          error
+	want          int // tunnels: bytes expected in total
+	complete      bool
+	completeAt    time.Time
+	phase         string // of the connection attempt: before | gray | after
+	gone          bool   // the attempt was made after proxy.Shutdown had returned
 	willHandshake bool
-	tls        *tls.Conn // set once the TLS handshake has completed
-	hsDone     bool
-	hsErr      error
-	leftPhase  string // of the instant the client went away (Leave), empty while it is there
+	tls           *tls.Conn // set once the TLS handshake has completed
+	hsDone        bool
+	hsErr         error
+	leftPhase     string // of the instant the client went away (Leave), empty while it is there
 }
 
 type c18Env struct {
@@ -1436,6 +1519,15 @@ func (e *c18Env) events() []simcore.Event {
 		faultDue = true
 		ev = append(ev, simcore.Event{Key: fmt.Sprintf("accept-error:%d", i), Fire: func() { e.acceptError(i, l) }})
 	}
+	// the history of the registry lies before the Shutdown call
+	for k, op := range e.sc.RegOps {
+		k, op := k, op
+		if op.fired || e.sdStarted || now.Before(e.base.Add(op.At)) {
+			continue
+		}
+		faultDue = true
+		ev = append(ev, simcore.Event{Key: fmt.Sprintf("registry:%d", k), Fire: func() { e.regOp(k, op) }})
+	}
 	if !e.sdStarted && !faultDue && !now.Before(e.base.Add(e.sc.At)) {
 		ev = append(ev, simcore.Event{Key: "shutdown", Weight: 2, Fire: e.startShutdown})
 	}
@@ -1503,6 +1595,32 @@ func (e *c18Env) brimLoop(it *c18Item, send func([]byte) error) bool {
 	}
 }
 
+// regOp calls proxy.CloseProxy as a statement-level task (registry histories exist in such runs only).
+func (e *c18Env) regOp(k int, op *c18RegOp) {
+	addr := op.Addr
+	e.mu.Lock()
+	op.fired = true
+	if op.Target >= 0 {
+		l := e.sc.Listeners[op.Target]
+		addr = l.regAddr
+		l.closedByOp = true
+	}
+	e.mu.Unlock()
+	if op.Target >= 0 {
+		e.r.Probe("closeproxy_registered_address")
+	} else {
+		e.r.Probe("closeproxy_unknown_address")
+	}
+	e.r.Fault("closeproxy")
+	e.r.Tracef("registry %d: CloseProxy(%q) listener=%d", k, addr, op.Target)
+	e.d.Sim.Spawn(fmt.Sprintf("closeproxy%d", k), func() {
+		CloseProxy(addr)
+		e.mu.Lock()
+		op.returned = true
+		e.mu.Unlock()
+	})
+}
+
 // acceptError makes the accept loop of listener i fail for good.
 func (e *c18Env) acceptError(i int, l *c18Lis) {
 	e.mu.Lock()
@@ -1532,7 +1650,8 @@ func (e *c18Env) startShutdown() {
 	e.r.Tracef("Shutdown(%s) called", e.sc.Wait)
 	e.d.Hint(e.t0.Add(e.sc.Wait))
 	run := func() {
-		Shutdown(e.sc.Wait)
+		// what main's exit handler calls (main.go: exit.Listen): Shutdown plus "no server is started any more"
+		Terminate(e.sc.Wait)
 		e.mu.Lock()
 		e.sdReturned, e.sdAt = true, time.Now()
 		e.mu.Unlock()
@@ -1568,6 +1687,7 @@ func (e *c18Env) startListener(i int, l *c18Lis) net.Listener {
 	if l.TLS {
 		ln = tls.NewListener(ln, l.tlscfg)
 	}
+	l.regAddr = ln.Addr().String()
 	srv := l.srv
 	if e.sc.Tasks && (l.Kind == "tcp" || l.Kind == "sni" || l.StartAt != nil) {
 		// proxy.serve, the accept loop and the per-connection goroutines of tcp.Server are tasks
@@ -1682,9 +1802,13 @@ func runC18(r *simcore.Run) {
 	r.SetSample(sc)
 
 	// global state of package proxy must not leak from one run into the next
-	mu.Lock()
+	// (a lock that an earlier run of this process has left behind for good is released here as well, and a
+	// Shutdown of nothing ends whatever state an earlier Shutdown that never returned has left behind)
+	mu.TryLock()
 	servers = make(map[string]Server)
+	terminating = false
 	mu.Unlock()
+	Shutdown(0)
 
 	e := &c18Env{r: r, sc: sc, stop: make(chan struct{}), byID: map[string]*c18Item{}, byMarker: map[string]*c18Item{}, base: time.Now()}
 	e.ctx, e.cancel = context.WithCancel(context.Background())
@@ -1796,7 +1920,7 @@ func runC18(r *simcore.Run) {
 	if sc.Tasks {
 		// closeConns ranges over a map keyed by net.Conn (native, random order): it stays one step, so
 		// that the order in which it closes the connections cannot reach the schedule
-		e.d.Sim.Activate("proxy:Shutdown", "proxy:serve", "proxy/tcp:*Server.", "-proxy/tcp:*Server.closeConns")
+		e.d.Sim.Activate("proxy:Shutdown", "proxy:Terminate", "proxy:serve", "proxy:CloseProxy", "proxy/tcp:*Server.", "-proxy/tcp:*Server.closeConns")
 	}
 
 	// servers, started through the real proxy.serve, one after the other (listener i is registered and
@@ -1812,13 +1936,16 @@ func runC18(r *simcore.Run) {
 		case "http":
 			inner = &http.Server{Handler: e.httpHandler(), TLSConfig: l.tlscfg}
 		case "tcp":
-			inner = &tcp.Server{Handler: &tcp.Proxy{DialTimeout: 20 * time.Second, Lookup: lookup}}
+			inner = &tcp.Server{Handler: &tcp.Proxy{DialTimeout: c18DialTimeout, Lookup: lookup}}
 			if !upstreams[l.Up] {
 				upstreams[l.Up] = true
 				e.upstream(l.Up, nil)
+				if l.UpDown {
+					e.net.Blackhole(l.Up, true)
+				}
 			}
 		case "sni":
-			inner = &tcp.Server{Handler: &tcp.SNIProxy{DialTimeout: 20 * time.Second, Lookup: lookup}}
+			inner = &tcp.Server{Handler: &tcp.SNIProxy{DialTimeout: c18DialTimeout, Lookup: lookup}}
 		case "grpc":
 			inner = &gRPCServer{server: grpc.NewServer(grpc.UnknownServiceHandler(e.grpcHandler))}
 		case "grpc-proxy":
@@ -1855,6 +1982,12 @@ func runC18(r *simcore.Run) {
 	for _, it := range sc.Items {
 		if it.Kind == "sni" {
 			e.upstream(it.Up, it)
+			if it.UpDown {
+				e.net.Blackhole(it.Up, true)
+			}
+		}
+		if it.UpDown {
+			e.d.Hint(e.base.Add(it.Start + c18DialTimeout)) // fabio gives up
 		}
 	}
 	e.drainTasks()
@@ -1945,6 +2078,9 @@ func runC18(r *simcore.Run) {
 			}
 			e.addPeer(it, l.dialKey(), acts, 0)
 		}
+	}
+	for _, op := range sc.RegOps {
+		e.d.Hint(e.base.Add(op.At))
 	}
 	e.d.Hint(e.base.Add(sc.At))
 	endAt := e.base.Add(sc.End)
@@ -2137,13 +2273,38 @@ func (e *c18Env) judge() {
 			if it.entered && it.before && (it.Forever || e.base.Add(it.finish()).After(deadline)) {
 				open = append(open, it.ID+"("+it.label()+")")
 			}
+			if p := e.peerOf(it); it.UpDown && p.openAtCall() {
+				open = append(open, it.ID+"("+it.label()+" tunnel whose upstream is unreachable)")
+			}
 			if p := e.peerOf(it); it.Kind == "raw" && p.openAtCall() && (it.Leave == "" || !e.base.Add(it.LeaveAt).Before(deadline)) {
 				open = append(open, it.ID+"("+it.label()+" connection to the "+sc.Listeners[it.Lis].name()+" listener)")
 			}
 		}
+		var hist []string
+		for _, op := range sc.RegOps {
+			if op.fired {
+				h := fmt.Sprintf("CloseProxy at %s for an address without a server", op.At)
+				if op.Target >= 0 {
+					h = fmt.Sprintf("CloseProxy at %s for listener %d", op.At, op.Target)
+				}
+				if !op.returned {
+					h += " (has not returned)"
+				}
+				hist = append(hist, h)
+			}
+		}
+		entered := 0
+		for _, l := range sc.Listeners {
+			if l.srv.sdEntered {
+				entered++
+			}
+		}
+		if entered == 0 && len(hist) > 0 {
+			which = "none-reached after-closeproxy"
+		}
 		r.Fail("shutdown-return", "not-returned-by-deadline servers="+which,
-			"Shutdown(%s) called at %s %s; servers whose Shutdown was still running at the deadline: %v; work still open at the deadline: %v",
-			sc.Wait, e.t0.Sub(e.base), late, blocked, open)
+			"Shutdown(%s) called at %s %s; servers whose Shutdown was still running at the deadline: %v; work still open at the deadline: %v; registry history before the call: %v",
+			sc.Wait, e.t0.Sub(e.base), late, blocked, open, hist)
 	}
 
 	for _, it := range sc.Items {
@@ -2187,6 +2348,24 @@ func (e *c18Env) judge() {
 		}
 		if p.phase == "gray" {
 			r.Probe("attempt_between_call_and_begun")
+		}
+		if sc.Listeners[it.Lis].closedByOp {
+			// CloseProxy closes the listener and its connections at once: what becomes of the work of that
+			// listener is not the subject of this property
+			r.Probe("item_on_listener_closed_by_closeproxy")
+			continue
+		}
+		if it.UpDown {
+			// the tunnel never gets beyond the dial of its handler: open work for clause (3) only
+			if p.openAtCall() && e.base.Add(it.Start+c18DialTimeout).After(deadline) {
+				r.Nontrivial()
+				r.Fault("upstream-unreachable")
+				r.Probe("open_tunnel_in_upstream_dial_" + it.label())
+			}
+			if it.entered {
+				r.Trouble("item %s reached an upstream that is unreachable", it.ID)
+			}
+			continue
 		}
 		if !it.entered || !it.before {
 			if p.phase == "before" {
@@ -2303,6 +2482,10 @@ func (e *c18Env) judgeRaw(it *c18Item, p *c18Peer, deadline time.Time) {
 	}
 	if p.phase == "gray" {
 		r.Probe("attempt_between_call_and_begun")
+	}
+	if l.closedByOp {
+		r.Probe("item_on_listener_closed_by_closeproxy")
+		return
 	}
 	if !p.openAtCall() {
 		if p.leftPhase == "before" {
@@ -2447,6 +2630,18 @@ func (e *c18Env) finish() {
 	}
 	e.drainTasks()
 	e.d.Finish()
+	// a Shutdown that is still running ends now that nothing is left (its servers wait for their deadline
+	// on the simulated clock): no goroutine of this run may live on into the next one
+	for i := 0; i < 64; i++ {
+		synctest.Wait()
+		e.mu.Lock()
+		over := !e.sdStarted || e.sdReturned
+		e.mu.Unlock()
+		if over {
+			break
+		}
+		time.Sleep(e.sc.Wait/4 + time.Second)
+	}
 	// process-wide state of fabio and of the dial seam must not leak into the next run
 	ZZGrpcDialOptions, ZZGrpcOnDial = nil, nil
 	if e.backend != nil {
